@@ -223,3 +223,158 @@ Proof.
   - apply seen_wc_shape; assumption.
   - rewrite Er. eexists. eexists. split; [reflexivity |]. split; [reflexivity |]. cbn [o_vis o_weights]. exact Pr.
 Qed.
+
+(* ------------------------------------------------------------------ consequences *)
+Lemma lost_fill_zero : lost_fill = Fin 0.
+Proof. reflexivity. Qed.
+
+Lemma auto_re_shift : forall cps v v' t f t' f' a,
+  (forall p, p < List.length cps -> get3 v cx_nan t f p = get3 v' cx_nan t' f' p) ->
+  auto_re cps v t f a = auto_re cps v' t' f' a.
+Proof.
+  intros cps v v' t f t' f' a H. unfold auto_re, last_auto. destruct (last_auto_from a cps 0) as [p|] eqn:E; [| reflexivity].
+  apply last_auto_from_some in E. destruct E as [_ [Hn _]]. rewrite Nat.sub_0_r in Hn.
+  rewrite H; [reflexivity |]. apply nth_error_Some. congruence.
+Qed.
+
+Lemma vv_vis_shift : forall vv cps v v' t f t' f' b,
+  get3 v cx_nan t f b = get3 v' cx_nan t' f' b -> vv_vis vv cps v t f b = vv_vis vv cps v' t' f' b.
+Proof. intros [table |] cps v v' t f t' f' b H; cbn [vv_vis]; [unfold spec_vv; rewrite H; reflexivity | exact H]. Qed.
+
+Lemma last_auto_lt : forall cps a p, last_auto cps a = Some p -> p < List.length cps.
+Proof.
+  intros cps a p H. unfold last_auto in H. apply last_auto_from_some in H. destruct H as [_ [Hn _]].
+  rewrite Nat.sub_0_r in Hn. apply nth_error_Some. congruence.
+Qed.
+
+Lemma spec_scale_div_zero_l : forall a2, spec_scale_div (Fin 0) a2 = spec_tiny.
+Proof. intros [y | | |]; reflexivity. Qed.
+Lemma spec_scale_div_zero_r : forall a1, spec_scale_div a1 (Fin 0) = spec_tiny.
+Proof.
+  intros [x | | |]; try reflexivity. cbn [spec_scale_div].
+  replace (is_zero 0) with true by reflexivity. now rewrite orb_true_r.
+Qed.
+
+Section StoreConsequences.
+  Variables (cps : list corrprod) (table : list node).
+  Variables (vis : arr3 cx) (w : arr3 Ext) (wc : list (list Ext)).
+  Variables (tchv fchv bchv tchw fchw bchw tchc fchc : list nat).
+  Variables (lostv lostw : list (nat * nat * nat)) (lostc : list (nat * nat)).
+  Variables T F : nat.
+  Hypothesis Hne : cps <> [].
+  Hypothesis Ha : has_autos cps.
+  Hypothesis Hv : shape3 vis T F (List.length cps).
+  Hypothesis Hw : shape3 w T F (List.length cps).
+  Hypothesis Hc : shape2 wc T F.
+  Hypothesis HBv : total bchv = List.length cps.
+  Hypothesis HBw : total bchw = List.length cps.
+
+  Let store scaled vvo p tch fch :=
+    vfw_store (Some cps) scaled vvo table (List.length cps) vis (tchv, fchv, bchv) lostv w (tchw, fchw, bchw) lostw
+              wc (tchc, fchc) lostc p tch fch.
+
+  (* unscaled stored weights, no Van Vleck step: if the chunk of the visibilities that holds the autocorrelation of
+     either input of product b (at that dump and channel) is lost, the weight is the tiny constant times what is stored *)
+  Theorem lost_vis_chunk_tiny_weight : forall p tch fch, presel_ok p T F ->
+    total tch = presel_T p T -> total fch = presel_F p F ->
+    exists o, store false VOff p tch fch = Ok o /\
+      forall t f b a pa, t < presel_T p T -> f < presel_F p F -> b < List.length cps ->
+        a = fst (cp_at cps b) \/ a = snd (cp_at cps b) -> last_auto cps a = Some pa ->
+        mem3 (chunk_idx tchv (presel_t0 p + t), chunk_idx fchv (presel_f0 p + f), chunk_idx bchv pa) lostv = true ->
+        get3 (o_weights o) NaN t f b =
+        emul (Fin bad_weight) (emul (get3 (seen_w w tchw fchw bchw lostw p) NaN t f b)
+                                    (nth f (nth t (seen_wc wc tchc fchc lostc p) []) NaN)).
+  Proof.
+    intros p tch fch Hp HT HF.
+    destruct (vfw_store_pointwise cps false VOff table vis tchv fchv bchv lostv w tchw fchw bchw lostw wc tchc fchc lostc
+                p tch fch T F Hne Ha ltac:(discriminate) Hv Hw Hc Hp HT HF HBv HBw) as [o [u [Eo [_ P]]]].
+    exists o. split; [exact Eo |]. intros t f b a pa Ht Hf Hb Hab Hla Hlost.
+    destruct (P t f b Ht Hf Hb) as [_ [Pw _]]. rewrite Pw. unfold spec_weight.
+    pose proof (last_auto_lt _ _ _ Hla) as Hpa.
+    assert (Hz : auto_re cps (o_vis o) t f a = Fin 0).
+    { unfold auto_re. rewrite Hla. destruct (P t f pa Ht Hf Hpa) as [Pv _]. rewrite Pv. cbn [vv_arg vv_vis].
+      rewrite (seen_vis_get3 vis tchv fchv bchv lostv p T F (List.length cps)) by assumption.
+      cbn zeta. rewrite Hlost. reflexivity. }
+    rewrite bad_weight_value. destruct Hab as [-> | ->]; rewrite Hz.
+    - now rewrite spec_scale_div_zero_l.
+    - now rewrite spec_scale_div_zero_r.
+  Qed.
+
+  (* a lost chunk of the weights (finite per-channel weight): weight and unscaled weight are exactly zero, whatever
+     the declaration and the autocorrelations *)
+  Theorem lost_weights_chunk_zero : forall scaled vvo p tch fch, vvo <> VOther -> presel_ok p T F ->
+    total tch = presel_T p T -> total fch = presel_F p F ->
+    exists o u, store scaled vvo p tch fch = Ok o /\ o_unscaled o = Some u /\
+      forall t f b c, t < presel_T p T -> f < presel_F p F -> b < List.length cps ->
+        mem3 (chunk_idx tchw (presel_t0 p + t), chunk_idx fchw (presel_f0 p + f), chunk_idx bchw b) lostw = true ->
+        nth f (nth t (seen_wc wc tchc fchc lostc p) []) NaN = Fin c ->
+        get3 (o_weights o) NaN t f b = Fin 0 /\ get3 u NaN t f b = Fin 0.
+  Proof.
+    intros scaled vvo p tch fch Hvv Hp HT HF.
+    destruct (vfw_store_pointwise cps scaled vvo table vis tchv fchv bchv lostv w tchw fchw bchw lostw wc tchc fchc lostc
+                p tch fch T F Hne Ha Hvv Hv Hw Hc Hp HT HF HBv HBw) as [o [u [Eo [Eu P]]]].
+    exists o, u. split; [exact Eo |]. split; [exact Eu |]. intros t f b c Ht Hf Hb Hlost Hcw.
+    destruct (P t f b Ht Hf Hb) as [_ [Pw Pu]]. rewrite Pw, Pu, Hcw.
+    rewrite (seen_w_get3 w tchw fchw bchw lostw p T F (List.length cps)) by assumption.
+    cbn zeta. rewrite Hlost, lost_fill_zero. unfold spec_weight, spec_unscaled.
+    assert (E0 : emul (Fin 0) (Fin c) = Fin 0) by (cbn [emul]; f_equal; ring).
+    assert (E1 : forall s, emul (Fin s) (Fin 0) = Fin 0) by (intros s; cbn [emul]; f_equal; ring).
+    rewrite E0. destruct scaled; rewrite ?E1; split; reflexivity.
+  Qed.
+
+  (* preselect_index commutes with everything: opening with a preselection of dumps / channels gives, at every kept
+     coordinate, what the full data set gives there (whatever the chunkings of the two calls) *)
+  Theorem preselect_commutes : forall scaled vvo t0 tn f0 fn tch fch tch' fch', vvo <> VOther ->
+    t0 + tn <= T -> f0 + fn <= F -> total tch = T -> total fch = F -> total tch' = tn -> total fch' = fn ->
+    exists o u o' u', store scaled vvo None tch fch = Ok o /\ o_unscaled o = Some u /\
+      store scaled vvo (Some (t0, tn, f0, fn)) tch' fch' = Ok o' /\ o_unscaled o' = Some u' /\
+      forall t f b, t < tn -> f < fn -> b < List.length cps ->
+        get3 (o_vis o') cx_nan t f b = get3 (o_vis o) cx_nan (t0 + t) (f0 + f) b /\
+        get3 (o_weights o') NaN t f b = get3 (o_weights o) NaN (t0 + t) (f0 + f) b /\
+        get3 u' NaN t f b = get3 u NaN (t0 + t) (f0 + f) b.
+  Proof.
+    intros scaled vvo t0 tn f0 fn tch fch tch' fch' Hvv Ht0 Hf0 HT HF HT' HF'.
+    destruct (vfw_store_pointwise cps scaled vvo table vis tchv fchv bchv lostv w tchw fchw bchw lostw wc tchc fchc lostc
+                None tch fch T F Hne Ha Hvv Hv Hw Hc Logic.I HT HF HBv HBw) as [o [u [Eo [Eu P]]]].
+    assert (Hp : presel_ok (Some (t0, tn, f0, fn)) T F) by (cbn; lia).
+    destruct (vfw_store_pointwise cps scaled vvo table vis tchv fchv bchv lostv w tchw fchw bchw lostw wc tchc fchc lostc
+                (Some (t0, tn, f0, fn)) tch' fch' T F Hne Ha Hvv Hv Hw Hc Hp HT' HF' HBv HBw) as [o' [u' [Eo' [Eu' P']]]].
+    exists o, u, o', u'. repeat (split; [assumption |]).
+    cbn [presel_T presel_F] in P, P'.
+    set (p' := Some (t0, tn, f0, fn)) in *.
+    assert (Sv : forall t f b, t < tn -> f < fn -> b < List.length cps ->
+              get3 (seen_vis vis tchv fchv bchv lostv p') cx_nan t f b =
+              get3 (seen_vis vis tchv fchv bchv lostv None) cx_nan (t0 + t) (f0 + f) b).
+    { intros t f b Ht Hf Hb.
+      rewrite (seen_vis_get3 vis tchv fchv bchv lostv p' T F (List.length cps)) by assumption.
+      rewrite (seen_vis_get3 vis tchv fchv bchv lostv None T F (List.length cps)) by (cbn; trivial; lia).
+      reflexivity. }
+    assert (Sw : forall t f b, t < tn -> f < fn -> b < List.length cps ->
+              get3 (seen_w w tchw fchw bchw lostw p') NaN t f b =
+              get3 (seen_w w tchw fchw bchw lostw None) NaN (t0 + t) (f0 + f) b).
+    { intros t f b Ht Hf Hb.
+      rewrite (seen_w_get3 w tchw fchw bchw lostw p' T F (List.length cps)) by assumption.
+      rewrite (seen_w_get3 w tchw fchw bchw lostw None T F (List.length cps)) by (cbn; trivial; lia).
+      reflexivity. }
+    assert (Sc : forall t f, t < tn -> f < fn ->
+              nth f (nth t (seen_wc wc tchc fchc lostc p') []) NaN =
+              nth (f0 + f) (nth (t0 + t) (seen_wc wc tchc fchc lostc None) []) NaN).
+    { intros t f Ht Hf.
+      rewrite (seen_wc_nth wc tchc fchc lostc p' T F) by assumption.
+      rewrite (seen_wc_nth wc tchc fchc lostc None T F) by (cbn; trivial; lia).
+      reflexivity. }
+    assert (Pvis : forall t f b, t < tn -> f < fn -> b < List.length cps ->
+              get3 (o_vis o') cx_nan t f b = get3 (o_vis o) cx_nan (t0 + t) (f0 + f) b).
+    { intros t f b Ht Hf Hb. destruct (P' t f b Ht Hf Hb) as [-> _].
+      destruct (P (t0 + t) (f0 + f) b ltac:(lia) ltac:(lia) Hb) as [-> _].
+      apply vv_vis_shift. now apply Sv. }
+    intros t f b Ht Hf Hb. split; [now apply Pvis |].
+    destruct (P' t f b Ht Hf Hb) as [_ [-> ->]].
+    destruct (P (t0 + t) (f0 + f) b ltac:(lia) ltac:(lia) Hb) as [_ [-> ->]].
+    rewrite (auto_re_shift cps (o_vis o') (o_vis o) t f (t0 + t) (f0 + f) (fst (cp_at cps b)))
+      by (intros q Hq; now apply Pvis).
+    rewrite (auto_re_shift cps (o_vis o') (o_vis o) t f (t0 + t) (f0 + f) (snd (cp_at cps b)))
+      by (intros q Hq; now apply Pvis).
+    rewrite Sw, Sc by assumption. split; reflexivity.
+  Qed.
+End StoreConsequences.
